@@ -1,5 +1,7 @@
 import pv
 
+READY = True
+
 SPEC = {
     "targets": ["Properties/C05.vo", "Run/C05.vo"],
     "theorems": {"Properties.C05": ["C05_lint_exit_iff", "C05_ci_exit_iff", "C05_min_severity_irrelevant",
